@@ -295,3 +295,104 @@ def union_field(V):
     got = collected_items(rb[1])
     V.check(got is not None and sorted(got) == sorted(failing), 'union:items', det)
     V.cover('reject')
+
+
+# ------------------------------------------------------------------ discriminated unions
+from typing import Literal  # noqa: E402
+
+
+class Vid(Schema):
+    name: Literal['video']
+    w: int = Field(ge=0, default=0)
+
+
+class Aud(Schema):
+    name: Literal['audio']
+    rate: int = Field(ge=0, default=0)
+
+
+class DiscPlain(Schema):
+    __options__ = Options(addition=False)
+    file: Union[Vid, Aud] = Field(discriminator='name')
+    n: types.PositiveInt = 1
+
+
+class DiscColl(Schema):
+    __options__ = Options(addition=False, collect_errors=True)
+    file: Union[Vid, Aud] = Field(discriminator='name')
+    n: types.PositiveInt = 1
+
+
+FILES = [{'name': 'video', 'w': 3}, {'name': 'audio', 'rate': '5'}, {'name': 'other'}, {'name': 'video', 'w': -1}, {}, 5, 'x',
+         '{"name": "audio"}', None, [{'name': 'video'}], {'name': 'audio', 'rate': 'x'}]
+
+
+@ob('discriminator', marks=['accept', 'reject'], budget=(60, 200),
+    bounds='Schema with file: Union[Vid, Aud] = Field(discriminator="name") and n: PositiveInt; file picked from 11 values (both '
+           'kinds, unknown / missing discriminator, non-mapping values, invalid nested field), n solver int | "x" | absent: '
+           'collect_errors does not change the verdict or the value, a failing field is named once, nothing but ParseError escapes')
+def discriminator(V):
+    data = {}
+    if V.bool('has_file'):
+        data['file'] = V.pick('file', FILES)
+    k = V.pick('n_kind', ['absent', 'int', 'bad'])
+    if k == 'int':
+        data['n'] = V.int('n')
+    elif k == 'bad':
+        data['n'] = 'x'
+    ra, rb = attempt(DiscPlain, **data), attempt(DiscColl, **data)
+    det = lambda: 'Disc(**%r): fail-fast -> %r ; collecting -> %r %r' % (data, ra, rb, collected_items(rb[1]) if rb[0] != 'ok' else '')
+    V.check(ra[0] != 'crash' and rb[0] != 'crash', 'discriminator:crash', det)
+    V.check(ra[0] == rb[0], 'discriminator:verdict', det)
+    if ra[0] == 'ok':
+        V.check(dict(ra[1]) == dict(rb[1]), 'discriminator:value', det)
+        V.cover('accept')
+        return
+    got = collected_items(rb[1])
+    V.check(got is not None and len(set(got)) == len(got), 'discriminator:duplicate-report', det)
+    V.check(set(got) <= {'file', 'n'}, 'discriminator:items', det)
+    V.cover('reject')
+
+
+# ------------------------------------------------------------------ computed (output) properties
+def _mk_prop(collect):
+    class Tag(Schema):
+        __options__ = Options(collect_errors=collect)
+        prefix: str = ''
+        number: types.PositiveInt = 1
+
+        @property
+        def code(self) -> types.PositiveInt:
+            return self.prefix + str(self.number)
+
+        @property
+        @Field(dependencies=['number'])
+        def half(self) -> types.PositiveInt:
+            return self.number - 3
+    Tag.__name__ = 'Tag' + ('C' if collect else 'P')
+    return Tag
+
+
+TAG = {False: _mk_prop(False), True: _mk_prop(True)}
+
+
+@ob('computed-property', marks=['accept', 'reject'], budget=(60, 200),
+    bounds='Schema with two typed output properties computed from the fields (one yields a non-numeric string for some inputs, one a '
+           'non-positive number); prefix picked from {"", "7", "A"}, number picked from 8 ints: with collect_errors the same inputs are '
+           'accepted, with the same value, as without')
+def computed_property(V):
+    data = {'prefix': V.pick('prefix', ['', '7', 'A'])}
+    k = V.pick('nk', ['int', 'absent', 'bad'])
+    if k == 'int':
+        data['number'] = V.pick('number', [-2, 0, 1, 2, 3, 4, 5, 12])   # str(symbolic int) into Decimal is unreliable under CrossHair
+    elif k == 'bad':
+        data['number'] = 'x'
+    ra, rb = attempt(TAG[False], **data), attempt(TAG[True], **data)
+    det = lambda: 'Tag(**%r): fail-fast -> %r ; collecting -> %r' % (data, ra if ra[0] != 'ok' else dict(ra[1]), rb if rb[0] != 'ok' else dict(rb[1]))
+    V.check(ra[0] != 'crash' and rb[0] != 'crash', 'property:crash', det)
+    V.check(ra[0] == rb[0], 'property:verdict', det)
+    if ra[0] == 'ok':
+        V.check(dict(ra[1]) == dict(rb[1]), 'property:value', det)
+        V.cover('accept')
+    else:
+        V.cover('reject')
